@@ -225,9 +225,12 @@ class SubPackets(collections_abc.MutableMapping, Field):
             sp = SignatureSP(packet)
             self['h_' + sp.__class__.__name__] = sp
 
-        if plen - len(packet) == hl and len(raw) == 2 + hl:
-            self._hashed_raw = raw
-            self._hashed_parsed = self._serialize_hashed()
+        if plen - len(packet) != hl or len(raw) != 2 + hl:
+            # the signature covers exactly hl octets; subpackets that run past them cannot be hashed as received
+            raise ValueError("hashed subpackets do not end at their declared length")
+
+        self._hashed_raw = raw
+        self._hashed_parsed = self._serialize_hashed()
 
         uhl = self.bytes_to_int(packet[:2])
         del packet[:2]
